@@ -438,7 +438,7 @@ def cases(rng, tier):
                 yield dict(kind="check", file=spec, pos=pos, val=val)
     for _ in range(40 if quick else 400):
         yield dict(kind="check", file=rng.choice(SMALL_FILES), pos=-1, val=rng.getrandbits(64))
-    for _ in range(10 if quick else 150):   # random cuts of larger files
+    for _ in range(10 if quick else 400):   # random cuts of larger files
         c = gen_rt(rng, rep=rng.choice(["bin4", "bin8"]), regime="exact")
         c["subs"] = []
         c["kind"] = "trunc_rt"
@@ -473,9 +473,9 @@ def cases(rng, tier):
                        ((100000, 1, 2), 1), ((3, 33334, 1), 3)]):
         yield dict(kind="big", n=list(shape), nvdim=nv, rep=rng.choice(["bin4", "bin8"]), sub=rng.getrandbits(32))
     # ---- main random streams
-    for _ in range(1200 if quick else 6000):
+    for _ in range(1200 if quick else 12000):
         yield gen_rt(rng)
-    for _ in range(700 if quick else 4000):
+    for _ in range(700 if quick else 8000):
         yield gen_foreign(rng)
 
 
@@ -1242,6 +1242,29 @@ def known(case, text):
     if case["kind"] in ("rt", "trunc_rt") and case.get("extend") and case.get("nvdim", 1) > 1 and "extend_scalar=True with a" in text:
         return "D21"
     return None
+
+
+def shrink(failure):
+    """greedy simplification of a failing round-trip case (same kind of oracle message)"""
+    case, text = failure["case"], failure["text"]
+    if case["kind"] != "rt":
+        return failure
+    key = text[:30]
+    cur = {k: v for k, v in case.items() if not k.startswith("_")}
+    for patch in (dict(subs=[]), dict(labels=None), dict(unit=None), dict(vals="int"), dict(ext=".omf"),
+                  dict(mesh=dict(p1=[0.0, 0.0, 0.0], p2=[2.0, 1.0, 1.0], n=[2, 1, 1], unit="m", dims=None)),
+                  dict(mesh=dict(p1=[0.0, 0.0, 0.0], p2=[1.0, 1.0, 1.0], n=[1, 1, 1], unit="m", dims=None))):
+        if any(k == "labels" and cur["nvdim"] > 1 and "labels" in text for k in patch):
+            continue
+        trial = dict(cur, **patch)
+        try:
+            o = run_impl(trial)
+        except Exception:
+            continue
+        hit = next((t for t in o["oracle"] if t[:30] == key), None)
+        if hit:
+            cur, text = trial, hit
+    return dict(case=cur, kind="oracle", text=text)
 
 
 def search(case, rng):
